@@ -72,8 +72,8 @@ open MxModel.SM
 step function - `apply` returns `none` without a state and `step` returns the state it was given - true
 of ANY `apply`.  The model has no intermediate states, so a path of the code that mutates and then raises
 cannot be expressed in it; that the CODE validates before it mutates is decided by the before/after
-oracle of this check on the real code (five such paths were repaired, four more are recorded as known
-findings).  What the model contributes is the explicit refusal criterion: `refused_iff` below, with
+oracle of this check on the real code (nine such paths were repaired in /repo, the last four - 178dea2, c332e11, c933412,
+49b981c - found by the review of this very statement).  What the model contributes is the explicit refusal criterion: `refused_iff` below, with
 `SM.St.accepts` spelled out operation by operation (`Proofs/StructMechEffect.lean`), compared with the
 code's accept/refuse by the `smech` correspondence. -/
 theorem rejected_edit_changes_nothing (kw : List String) (st : St) (op : Op)
